@@ -1,6 +1,6 @@
 (** * C11 — all physical implementations of an operator agree.
     Only statements, each closed by [exact], with its assumptions printed. *)
-From RL Require Import Model.Exec Proofs.ExecP Proofs.MergeJoinP.
+From RL Require Import Model.Exec Proofs.ExecP Proofs.MergeJoinP Proofs.SortAggP.
 From Coq Require Import Permutation.
 Open Scope Z_scope.
 
@@ -41,6 +41,12 @@ Theorem merge_inner_eq_nested_loop : forall cond lk rk nl nr L R, sorted_on lk (
   exists out, x_nljoin JInner cond nr L R = Some out /\ Permutation (x_mergejoin JInner lk rk nl nr L R) out.
 Proof. exact mergejoin_inner_eq_nljoin. Qed.
 
+(** sort aggregation (one group per run of equal consecutive keys) over input sorted on the group keys
+    = hash aggregation, as LISTS: same groups in the same first-seen order, same aggregate values *)
+Theorem sort_aggregation_eq_hash_aggregation : forall ks aggs c, sorted_on ks (concat c) ->
+  x_sortagg ks aggs c = x_hashagg ks aggs c.
+Proof. exact sortagg_eq_hashagg. Qed.
+
 (** sort-then-limit = top-N *)
 Theorem topn_eq_sort_then_limit : forall limit offset ks c,
   x_topn limit offset ks c = concat (x_limit limit offset [x_order ks c]).
@@ -69,5 +75,6 @@ Print Assumptions hash_anti_eq_nested_loop.
 Print Assumptions joins_independent_of_chunking.
 Print Assumptions merge_inner_eq_hash.
 Print Assumptions merge_inner_eq_nested_loop.
+Print Assumptions sort_aggregation_eq_hash_aggregation.
 Print Assumptions topn_eq_sort_then_limit.
 Print Assumptions int_width_keys_disagree.
